@@ -320,6 +320,10 @@ def check_C02(P, tier, SA, holder):
         R.add(obs)
         R.add(crop_obligations(f, "R-CROP", True))
         R.add(crop_obligations(d, "R-CROP", False))
+        for fpm in (False, True):
+            S_, vv = views(SA, fpm, False, "generic", halo=halo)
+            for v_ in vv:
+                R.add(RS.event_obs(v_, "R-REG", ("typestate", "shape"), "Fourier layout, truncation and re-padding are consistent between the two modes' pipelines (footprint=%s, halo %s, clamp=%s)" % (fpm, halo, v_.clamp_state())))
         R.add(reflect_obligations(SA, "R-REFLECT", halo))
     # R-DOT
     R.add(dot_obligation(P))
